@@ -52,46 +52,16 @@ func gatePacketHash(w *World, r *Report) {
 	r.floor("GATE", "success returns of readNextPacket", len(rets), 1)
 	for i, ret := range rets {
 		key := fmt.Sprintf("G1:readNextPacket:return#%d", i)
-		ok := false
-		why := "no dominating computePacketHash(...) == h.Hash comparison"
-		for _, pr := range eqFacts(ret.Block()) {
-			call := callOf(pr[0], "par2.computePacketHash")
-			if call == nil {
-				continue
-			}
-			hp := deepPath(pr[1])
-			if lastField(hp) != "hash" {
-				why = "computePacketHash is compared with " + hp.String() + ", not the header's Hash field"
-				continue
-			}
-			a0, a1 := deepPath(call.Call.Args[0]), deepPath(call.Call.Args[1])
-			if lastField(a0) != "recoverysetid" || lastField(a1) != "type" || a0.Root != hp.Root || a1.Root != hp.Root {
-				why = fmt.Sprintf("the hash is computed over (%s, %s), not the header's set id and type", a0, a1)
-				continue
-			}
-			body := stripConv(call.Call.Args[2])
-			// returned body (result #2) must be the hashed body or a copy of it
-			rb := stripConv(ret.Results[2])
-			bodyOK := rb == body
-			if !bodyOK {
-				for _, c := range callInstrs(fn) {
-					if bc, isB := c.Common().Value.(*ssa.Builtin); isB && bc.Name() == "copy" {
-						if stripConv(c.Common().Args[0]) == rb && stripConv(c.Common().Args[1]) == body && instrDominates(c, ret) {
-							bodyOK = true
-						}
-					}
-				}
-			}
-			if !bodyOK {
-				why = "the body returned is not the body whose hash was compared"
-				continue
-			}
+		if len(ret.Results) < 3 {
+			r.unk("GATE", key, w.ipos(ret), "unexpected result arity")
+			continue
+		}
+		root, ok, why := packetHashGate(ret, ret.Results[2], 0)
+		if ok {
 			r0, r1 := deepPath(ret.Results[0]), deepPath(ret.Results[1])
-			if r0.Root != hp.Root || lastField(r0) != "recoverysetid" || r1.Root != hp.Root || lastField(r1) != "type" {
-				why = "the returned set id / type are not the header fields that were hashed"
-				continue
+			if r0.Root != root || lastField(r0) != "recoverysetid" || r1.Root != root || lastField(r1) != "type" {
+				ok, why = false, "the returned set id / type are not the header fields that were hashed"
 			}
-			ok = true
 		}
 		if ok {
 			r.ok("GATE", key, w.ipos(ret), "returned (setID, type, body) are exactly what computePacketHash(...) == h.Hash was checked on")
@@ -99,6 +69,99 @@ func gatePacketHash(w *World, r *Report) {
 			r.bad("GATE", key, w.ipos(ret), "a packet can be accepted without its MD5 having been verified: "+why)
 		}
 	}
+}
+
+// packetHashGate decides whether, at instruction `at`, the value `body` is the body
+// (or a copy of the body) whose computePacketHash(h.SetID, h.Type, body) was compared
+// with h.Hash on every path - directly, or inside a module helper whose result `body`
+// is (then the helper's success returns are judged, and the header is mapped back to
+// the caller's argument). It returns the root of the header the hash was checked on.
+func packetHashGate(at ssa.Instruction, body ssa.Value, depth int) (ssa.Value, bool, string) {
+	fn := at.Parent()
+	why := "no dominating computePacketHash(...) == h.Hash comparison"
+	rb := stripConv(body)
+	for _, pr := range eqFacts(at.Block()) {
+		call := callOf(pr[0], "par2.computePacketHash")
+		if call == nil {
+			continue
+		}
+		hp := deepPath(pr[1])
+		if lastField(hp) != "hash" {
+			why = "computePacketHash is compared with " + hp.String() + ", not the header's Hash field"
+			continue
+		}
+		a0, a1 := deepPath(call.Call.Args[0]), deepPath(call.Call.Args[1])
+		if lastField(a0) != "recoverysetid" || lastField(a1) != "type" || a0.Root != hp.Root || a1.Root != hp.Root {
+			why = fmt.Sprintf("the hash is computed over (%s, %s), not the header's set id and type", a0, a1)
+			continue
+		}
+		hashed := stripConv(call.Call.Args[2])
+		bodyOK := rb == hashed
+		if !bodyOK {
+			for _, c := range callInstrs(fn) {
+				if bc, isB := c.Common().Value.(*ssa.Builtin); isB && bc.Name() == "copy" {
+					if stripConv(c.Common().Args[0]) == rb && stripConv(c.Common().Args[1]) == hashed && instrDominates(c, at) {
+						bodyOK = true
+					}
+				}
+			}
+		}
+		if !bodyOK {
+			why = "the body returned is not the body whose hash was compared"
+			continue
+		}
+		return hp.Root, true, ""
+	}
+	// the check may live in a helper that returns the body
+	if depth < 2 {
+		idx := 0
+		var hc *ssa.Call
+		switch x := rb.(type) {
+		case *ssa.Extract:
+			hc, _ = x.Tuple.(*ssa.Call)
+			idx = x.Index
+		case *ssa.Call:
+			hc = x
+		}
+		if hc != nil && instrDominates(hc, at) {
+			if g := hc.Call.StaticCallee(); g != nil && len(g.Blocks) > 0 && g.Pkg != nil && isModPath(g.Pkg.Pkg.Path()) {
+				grets := successReturns(g)
+				var root ssa.Value
+				all := len(grets) > 0
+				for _, gret := range grets {
+					if idx >= len(gret.Results) {
+						all = false
+						break
+					}
+					rt, ok, w2 := packetHashGate(gret, gret.Results[idx], depth+1)
+					if !ok {
+						all, why = false, w2+" (in "+shortName(g)+")"
+						break
+					}
+					// map the helper's header parameter to the caller's argument
+					mapped := ssa.Value(nil)
+					for j, prm := range g.Params {
+						if rt == ssa.Value(prm) && j < len(hc.Call.Args) {
+							mapped = deepPath(hc.Call.Args[j]).Root
+						}
+					}
+					if mapped == nil {
+						all, why = false, "the header checked in "+shortName(g)+" is not one of its parameters"
+						break
+					}
+					if root != nil && root != mapped {
+						all, why = false, "different headers on different paths of "+shortName(g)
+						break
+					}
+					root = mapped
+				}
+				if all {
+					return root, true, ""
+				}
+			}
+		}
+	}
+	return nil, false, why
 }
 
 func gateSetID(w *World, r *Report) {
